@@ -246,6 +246,22 @@ func ModShapes(ascii, wide bool, maxBoltBlock int) []vref.HeaderShape {
 	return append(out, many)
 }
 
+// ModTwins yields a modification case twice: read buffer left alone, and read
+// buffer refilled by the next read between Decode and the modification.
+func ModTwins(c Case, yield func(Case) bool) bool {
+	for _, s := range []bool{false, true} {
+		c.Scribble = s
+		if !yield(c) {
+			return false
+		}
+	}
+	return true
+}
+
+// ModTwinsBound / ModTwinsRule are appended to the bound / rule of every modify part.
+const ModTwinsBound = " x {read buffer left alone, read buffer refilled by the next read after Decode}"
+const ModTwinsRule = ". The frame is decoded from a model of the connection's read buffer (one pooled IoBuffer holding the frame and the next frame, as connection.doRead leaves it); scribble=true: after Decode the rest is drained as Dispatch does and the buffer's next ReadOnce overwrites the place of the frame (every byte complemented) BEFORE the modification is applied: the header/body/class view read back from the frame must not change, and the case must end exactly as its twin with the buffer left alone (same verdict, same encoded bytes; tars frames with >= 2 map entries: same verdict only)"
+
 // BoltModCases enumerates oracle (3) cases.
 func BoltModCases(codec string, unitV2 bool, modes []string, yield func(Case) bool) {
 	wide := vreport.Thorough()
@@ -261,7 +277,7 @@ func BoltModCases(codec string, unitV2 bool, modes []string, yield func(Case) bo
 					for _, bl := range bodies {
 						for _, mod := range Mods {
 							c := Case{Codec: codec, Dir: dir, Kind: "mod", Mode: mode, Mod: mod, Class: cl, Hdr: hs, Body: bl, Seed: cl + bl + 1, ID: 0x0a0b0c0d, NewID: 0xf1f2f3f4}
-							if !yield(c) {
+							if !ModTwins(c, yield) {
 								return
 							}
 						}
